@@ -3,7 +3,7 @@
 # must give byte-identical event logs (hashed) / schedule hashes. A divergence is harness trouble (exit 2).
 set -u
 export GOFLAGS=-mod=mod GOPROXY=off GOSUMDB=off GOTOOLCHAIN=local
-VERIF=/verif
+VERIF=$(dirname "$(readlink -f "$0")")
 D=$(mktemp -d "${TMPDIR:-/tmp}/verif-self-XXXXXX"); trap 'rm -rf "$D"' EXIT
 (cd $VERIF/sim && go build -o $VERIF/bin/vcheck ./cmd/vcheck) || exit 2
 fail=0
